@@ -8,7 +8,10 @@ Relations
   run : PhenoSimulator.run called R times on an in-memory Genotypes object with the public rng replaced by a
         scripted recorder (returns a given noise vector, records loc/scale/size) and normalize_gts wrapped;
         a second simulator run with zero noise yields the genetic component; the phenotypes are then written
-        with PhenoSimulator.write and read back with Phenotypes.read.
+        with PhenoSimulator.write and read back with Phenotypes.read.  In a third of the cases the SAME simulator has
+        already been used for 1-3 other calls of run() (same signature with the other trait type, other betas,
+        normalisation flipped, other heritability/environment, a sub-list of the effects): the documented model is
+        demanded of every call on a simulator, not only of the first one.
 """
 import logging
 import os
@@ -36,8 +39,10 @@ RULE = (
     "run: dosage matrices of SNPs, haplotype pseudo-genotypes and repeat counts (up to 253 per allele) incl. constant "
     "columns, 0-4 effects incl. duplicate and absent IDs, betas incl. 0, negative and sum beta^2 > 1, all combinations of "
     "{heritability, environment, normalize} x prevalence in {None, 0, K with K*n an integer +- 1 ulp, 0.29, 0.35, 0.999}, "
-    "scripted noise from a small grid so that liabilities tie, 1-3 replicates. Non-trivial = at least one effect found and "
-    "(a non-constant column or prevalence given). Distinct = distinct canonical JSON."
+    "scripted noise from a small grid so that liabilities tie, 1-3 replicates (calls with the same signature on one "
+    "simulator), in a third of the cases after 1-3 prior calls on the SAME simulator that differ in one respect (trait "
+    "type only, betas, normalize, heritability/environment, sub-list of the effects). Non-trivial = at least one effect "
+    "found and (a non-constant column or prevalence given). Distinct = distinct canonical JSON."
 )
 TRUSTED = [
     "numpy Generator.normal is replaced by a scripted recorder: 'eps is i.i.d. normal' is read structurally (exactly one "
@@ -157,10 +162,36 @@ class Run(Relation):
             R = int(rng.choice([1, 1, 2, 3]))
             eps = [[float(rng.choice(EPS)) if rng.random() < 0.7 else float(np.round(rng.normal(), 3)) for _ in range(n)]
                    for _ in range(R)]
-            out.append({"gids": gids, "gt": gt, "phase": bool(rng.random() < 0.3), "eff": eff, "h2": h2, "env": env,
-                        "norm": bool(rng.random() < 0.6), "prev": prevalences(rng, n), "eps": eps, "kind": kind,
-                        "labs": sorted(set(labs))})
+            case = {"gids": gids, "gt": gt, "phase": bool(rng.random() < 0.3), "eff": eff, "h2": h2, "env": env,
+                    "norm": bool(rng.random() < 0.6), "prev": prevalences(rng, n), "eps": eps, "kind": kind,
+                    "labs": sorted(set(labs))}
+            if rng.random() < 0.35:
+                case["hist"] = self._history(rng, case, n)
+            out.append(case)
         return out
+
+    @staticmethod
+    def _history(rng, case, n):
+        """earlier calls of run() on the same simulator: each differs from the observed calls in ONE respect.  Their trait
+        type is the other one (quantitative <-> case/control), so that their columns never share a name with the
+        observed ones and the written header of the observed columns is unique_names of the observed names alone."""
+        hist = []
+        for _ in range(int(rng.choice([1, 1, 2, 3]))):
+            h = {"eff": [list(e) for e in case["eff"]], "h2": case["h2"], "env": case["env"], "norm": case["norm"]}
+            what = str(rng.choice(["same-signature", "betas", "normalize", "h2-env", "sub-effects"]))
+            if what == "betas":
+                h["eff"] = [[e[0], float(rng.choice(BETAS))] for e in h["eff"]]
+            elif what == "normalize":
+                h["norm"] = not h["norm"]
+            elif what == "h2-env":
+                h["h2"] = None if rng.random() < 0.3 else float(rng.choice([0.1, 0.3, 0.5, 1.0, 0.75]))
+                h["env"] = None if rng.random() < 0.5 else float(rng.choice([0.0, 0.5, 1.0, 2.5]))
+            elif what == "sub-effects" and h["eff"]:
+                h["eff"] = h["eff"][1:] if rng.random() < 0.5 else h["eff"][::-1]
+            h["what"] = what
+            h["eps"] = [float(rng.choice(EPS[1:])) for _ in range(n)]
+            hist.append(h)
+        return hist
 
     def exhaustive(self, tier):
         """small scope: 3 samples x 2 variants, every effect list over {v0, v1, absent} of length <= 2 (order and
@@ -235,13 +266,23 @@ class Run(Relation):
                         return z
 
                     ps.normalize_gts = wrapped
+                    # (2a) whatever the same simulator was used for before
+                    hist = inp.get("hist", [])
+                    if hist:
+                        ps.rng = Rec([h["eps"] for h in hist])
+                        hprev = 0.5 if inp["prev"] is None else None     # the other trait type: other column names
+                        for h in hist:
+                            ps.run([Effect(id=e[0], beta=e[1]) for e in h["eff"]], h["h2"], hprev, h["norm"], h["env"])
+                        ps.rng = rec
+                        seen.update(d=None, z=None, n=0)
+                    skip = 0 if ps.phens.data is None else len(ps.phens.names)
                     pts = []
                     for _ in inp["eps"]:
                         pts.append([float(x) for x in np.asarray(ps.run(effects, inp["h2"], inp["prev"], inp["norm"], inp["env"]))])
                     if len(rec.calls) != len(inp["eps"]) or (inp["norm"] and seen["n"] != len(inp["eps"])):
                         return {"unobserved": "rng.normal / normalize_gts not called once per replicate"}
-                    names = [str(x) for x in ps.phens.names]
-                    data = np.asarray(ps.phens.data, dtype=np.float64).tolist()
+                    names = [str(x) for x in ps.phens.names][skip:]
+                    data = np.asarray(ps.phens.data, dtype=np.float64)[:, skip:].tolist()
                     same = tuple(ps.phens.samples) == tuple(g.samples)
                     ps.write()
                     q = Phenotypes(fn, log=quiet_logger())
@@ -249,8 +290,8 @@ class Run(Relation):
                     same = same and tuple(str(x) for x in q.samples) == tuple(g.samples)
                     return {"ok": {"d": seen["d"], "z": seen["z"], "g": [float(x) for x in gen], "calls": rec.calls, "pts": pts,
                                    "names": names, "same": bool(same), "data": data,
-                                   "header": [str(x) for x in q.names],
-                                   "read": np.asarray(q.data, dtype=np.float64).tolist()}}
+                                   "header": [str(x) for x in q.names][skip:],
+                                   "read": np.asarray(q.data, dtype=np.float64)[:, skip:].tolist()}}
                 except Exception as e:  # noqa
                     return {"err": err_kind(e), "cls": type(e).__name__, "msg": str(e)[:200]}
         finally:
@@ -284,6 +325,8 @@ class Run(Relation):
     def classes(self, inp, obs):
         out = [inp["kind"], f"h2={'given' if inp['h2'] is not None else 'none'}", f"env={'given' if inp['env'] is not None else 'none'}",
                "normalize" if inp["norm"] else "raw", f"R={len(inp['eps'])}", f"effects={len(inp['eff'])}"] + list(inp["labs"])
+        out.append(f"prior-calls-on-the-simulator={len(inp.get('hist', []))}")
+        out += ["prior-call:" + h["what"] for h in inp.get("hist", [])]
         if inp["prev"] is None:
             out.append("quantitative")
         else:
@@ -313,6 +356,12 @@ class Run(Relation):
 
     def shrink(self, inp):
         n, p = len(inp["gt"]), len(inp["gids"])
+        hist = inp.get("hist", [])
+        if hist:
+            yield {k: v for k, v in inp.items() if k != "hist"}
+            for j in range(len(hist)):
+                if len(hist) > 1:
+                    yield dict(inp, hist=hist[:j] + hist[j + 1:])
         if len(inp["eps"]) > 1:
             yield dict(inp, eps=inp["eps"][:1])
         for j in range(len(inp["eff"])):
@@ -322,7 +371,10 @@ class Run(Relation):
                 yield dict(inp, gids=inp["gids"][:j] + inp["gids"][j + 1:], gt=[r[:j] + r[j + 1:] for r in inp["gt"]])
         for i in range(n):
             if n > 1:
-                yield dict(inp, gt=inp["gt"][:i] + inp["gt"][i + 1:], eps=[e[:i] + e[i + 1:] for e in inp["eps"]])
+                c = dict(inp, gt=inp["gt"][:i] + inp["gt"][i + 1:], eps=[e[:i] + e[i + 1:] for e in inp["eps"]])
+                if hist:
+                    c["hist"] = [dict(h, eps=h["eps"][:i] + h["eps"][i + 1:]) for h in hist]
+                yield c
         for key in ("h2", "env", "prev"):
             if inp[key] is not None:
                 yield dict(inp, **{key: None})
@@ -650,7 +702,9 @@ LEVEL_TEXT = (
     "Coq theorems (all effect lists, betas, heritability/environment combinations, liabilities and selections; no size "
     "bound) about a Gallina model of PhenoSimulator.run over exact rationals, with the case count floor(K*n) evaluated "
     "bit-exactly by PrimFloat; the model and the property's boolean checkers are evaluated inside Coq on every generated "
-    "call of the implementation run with a scripted noise generator."
+    "call of the implementation run with a scripted noise generator - every call of run() on a simulator (repeated "
+    "calls with one signature and calls after other uses of the same simulator), each against the genetic component "
+    "of a fresh simulator: phenotype k = genetic + eps_k."
 )
 LEVEL_NOTE = (
     "partial: 'eps is i.i.d. normal' is a statement about numpy's generator and is only checked structurally (one "
